@@ -181,13 +181,15 @@ func c04Run(t *testing.T, s *sim.Scn) *sim.Outcome {
 	rec = func(prefix []int) {
 		for k := 0; k < 64 && o.V == nil; k++ {
 			ks := append(append([]int(nil), prefix...), k)
-			fired := c04Once(t, s, ks, o)
+			sub := sim.NewOutcome()
+			fired := c04Once(t, s, ks, sub)
+			o.Absorb(sub)
 			images++
 			if !fired[len(ks)-1] {
 				return
 			}
 			o.Count(fmt.Sprintf("crash-depth-%d", len(ks)), 1)
-			if len(ks) < depth {
+			if len(ks) < depth && sub.V == nil {
 				rec(ks)
 			}
 		}
